@@ -434,6 +434,7 @@ func (b *Body) nodeTextDispatch(l *Ledger) {
 func ruleWS(c *Ctx) {
 	for _, b := range c.bodies() {
 		l := c.L
+		b.trimsJSONSpace(l)
 		for _, fn := range b.srcFuncs(b.Lib) {
 			// candidate: func(buf []byte) bool with a range loop over buf
 			if len(fn.Params) != 1 || !isByteSlice(fn.Params[0].Type()) || fn.Signature.Results().Len() != 1 {
@@ -569,6 +570,74 @@ func (p *bytePath) classify(bb, pred *ssa.BasicBlock, cset bset, env map[ssa.Val
 		case *ssa.Panic:
 			*fls = fls.or(cset)
 			return
+		}
+	}
+}
+
+// trimsJSONSpace (R-WS): a root classifier that strips the white space around a text before
+// looking at its first and last byte strips all four white-space bytes of RFC 8259 (space,
+// tab, line feed, carriage return) from both ends — TrimSpace, or Trim / TrimLeft + TrimRight
+// with constant cut sets that hold all four. A cut set that misses one (the carriage return of
+// a CRLF-terminated file, say) makes a well-formed array look like something else.
+func (b *Body) trimsJSONSpace(l *Ledger) {
+	for _, fn := range b.srcFuncs(b.Lib) {
+		if len(fn.Params) != 1 || !isByteSlice(fn.Params[0].Type()) || fn.Signature.Results().Len() != 1 || typeShort(fn.Signature.Results().At(0).Type()) != "bool" {
+			continue
+		}
+		left, right := false, false
+		n := 0
+		bad := ""
+		derived := taintClosure(fn, []ssa.Value{fn.Params[0]}, nil)
+		allInstrs(fn, func(i ssa.Instruction) {
+			call, ok := i.(*ssa.Call)
+			if !ok {
+				return
+			}
+			f := call.Call.StaticCallee()
+			if f == nil || f.Pkg == nil || (f.Pkg.Pkg.Path() != "bytes" && f.Pkg.Pkg.Path() != "strings") || !strings.HasPrefix(f.Name(), "Trim") {
+				return
+			}
+			if len(call.Call.Args) == 0 || !(call.Call.Args[0] == ssa.Value(fn.Params[0]) || derived[call.Call.Args[0]]) {
+				return
+			}
+			n++
+			switch f.Name() {
+			case "TrimSpace":
+				left, right = true, true
+			case "Trim", "TrimLeft", "TrimRight":
+				set, isK := strConst(call.Call.Args[1])
+				if !isK {
+					bad = "the cut set at " + b.posOf(call) + " is not a constant"
+					return
+				}
+				for _, ch := range " \t\n\r" {
+					if !strings.ContainsRune(set, ch) {
+						bad = fmt.Sprintf("the cut set %q at %s misses the white-space byte %q: a text with that byte at this end is classified by the wrong byte", set, b.posOf(call), string(ch))
+						return
+					}
+				}
+				if f.Name() != "TrimRight" {
+					left = true
+				}
+				if f.Name() != "TrimLeft" {
+					right = true
+				}
+			default:
+				// TrimPrefix, TrimSuffix, TrimFunc: not a white-space trim this rule knows
+				n--
+			}
+		})
+		if n == 0 {
+			continue
+		}
+		key := fname(fn) + ": trims all four JSON white-space bytes from both ends before looking at the brackets"
+		if bad == "" && !(left && right) {
+			bad = fmt.Sprintf("only one end of the text is trimmed (left: %v, right: %v)", left, right)
+		}
+		if bad != "" {
+			l.add("R-WS", b.Name, key, b.rel(fn.Pos()), Violated, bad, true)
+		} else {
+			l.add("R-WS", b.Name, key, b.rel(fn.Pos()), Discharged, "TrimSpace, or constant cut sets holding space, tab, LF and CR, on both ends", true)
 		}
 	}
 }
